@@ -52,9 +52,9 @@ def gen_worlds(seed, n):
             w = simgen.gen_planner_world(rng, plan[k % len(plan)])
             k += 1
         else:
-            w = simgen.gen_world(rng)
-        if simgen.signature(w):
-            continue           # inputs matching the signature of a known finding run in their own stream
+            w = simgen.gen_world(rng, closed_loop=rng.random() < 0.1)
+        if "zero_runtime" in simgen.signature(w):
+            continue           # F8: a zero-runtime strategy livelocks simulate(); exercised in its own stream (C05)
         ws.append(w)
     return ws
 
@@ -272,4 +272,111 @@ def machine_stream(ctx, worlds, runs, deps_built=True):
     ctx.cov.setdefault("input_distribution", {})["sim_run_status"] = statuses
     ctx.cov["input_distribution"]["sim_runs_not_fed_to_machine"] = skipped
     mism = ctx.model_stream("S-sim", HEADER, "world * list ev", "(fun p => observe (fst p) (snd p))", cases, shard=12)
+    return [(idx[k], mv, cases[k][1]) for k, mv in mism], len(cases)
+
+
+# ------------------------------------------------------------------ log -> events of the machine with the event queue
+HEADER_Q = "From Verif Require Import Gen.Src_Task Gen.Src_Event Model.EventQ Model.Sim Model.SimQ."
+
+
+def convert_q(run, world):
+    """like convert, for Model/SimQ.v: machine events wrapped in QSim plus the queue operations."""
+    names = set()
+    for e in run["log"]:
+        if e[0] in ("qpush", "qpop", "qremove") and e[3] is not None:
+            names.add(e[3])
+        elif e[0] == "qsync":
+            names.update(x[2] for x in e[1] if x[2] is not None)
+        elif e[0] == "graph":
+            names.update(t["name"] for t in e[1]["tasks"])
+    rank = {n: i for i, n in enumerate(sorted(names))}
+    gworld, gevs, nm, unsup, dom = convert(run, world)
+    if unsup:
+        return gworld, None, nm, unsup, dom
+    # second pass in log order, interleaving queue operations with the machine events
+    nm2 = Names()
+    nm2.t, nm2.w, nm2.r = nm.t, nm.w, nm.r
+    out = []
+
+    def pev(time, ty, task):
+        return "(mkPev %s %s %s)" % (gz(time), ty, "None" if task is None else "(Some (%s, %s))" % (gz(nm2.tid(task)), gz(rank[task])))
+    sub = {"log": []}
+    for e in run["log"]:
+        k = e[0]
+        if k == "qpush":
+            out.append("QPush %s" % pev(e[1], e[2], e[3]))
+        elif k == "qpop":
+            out.append("QPop %s" % pev(e[1], e[2], e[3]))
+        elif k == "qremove":
+            out.append("QRemove %s" % pev(e[1], e[2], e[3]))
+        elif k == "qsync":
+            out.append("QSync %s" % glist([pev(x[0], x[1], x[2]) for x in e[1]]))
+        else:
+            one = dict(run)
+            one["log"] = [e]
+            _, g1, _, u1, _ = convert_with(one, world, nm2)
+            for x in g1:
+                out.append("QSim (%s)" % x)
+    return gworld, glist(out), nm2, None, dom
+
+
+def convert_with(run, world, nm):
+    """convert() on a log fragment with a given name table; returns the event strings as a list"""
+    saved = Names
+    evs_holder = []
+    # reuse convert by temporarily substituting the name table
+    class _N(Names):
+        def __init__(self):
+            self.t, self.w, self.r = nm.t, nm.w, nm.r
+    globals()["Names"] = _N
+    try:
+        gworld, gevs, nm_, unsup, dom = convert(run, world)
+    finally:
+        globals()["Names"] = saved
+    body = gevs[1:-1]
+    items = split_top(body)
+    return gworld, items, nm_, unsup, dom
+
+
+def split_top(s):
+    """split a Gallina list body at top-level semicolons"""
+    out = []
+    depth = 0
+    cur = ""
+    for ch in s:
+        if ch in "([":
+            depth += 1
+        elif ch in ")]":
+            depth -= 1
+        if ch == ";" and depth == 0:
+            if cur.strip():
+                out.append(cur.strip())
+            cur = ""
+        else:
+            cur += ch
+    if cur.strip():
+        out.append(cur.strip())
+    return out
+
+
+def machine_q_stream(ctx, worlds, runs):
+    cases = []
+    idx = []
+    for i, (w, r) in enumerate(zip(worlds, runs)):
+        if r["status"] == "adapter-error" or not r["log"] or r["sim_time"] is None or not r["counters"]:
+            continue
+        gworld, gevs, nm, unsup, dom = convert_q(r, w)
+        if unsup or gevs is None:
+            continue
+        exp = expected_observation(r, nm, dom)
+        # the number of events still pending at the end, as the implementation's queue reports it
+        pend = None
+        for e in reversed(r["log"]):
+            if e[0] == "handle":
+                pend = len(e[5])
+                break
+        exp.append(pend if pend is not None else 0)
+        cases.append(("(%s, %s)" % (gworld, gevs), exp, i))
+        idx.append(i)
+    mism = ctx.model_stream("S-simq", HEADER_Q, "world * list qev", "(fun p => observe_q (fst p) (snd p))", cases, shard=10)
     return [(idx[k], mv, cases[k][1]) for k, mv in mism], len(cases)
